@@ -55,6 +55,9 @@ void harness(void)
 #if defined(SIDE_CHILD)
   gc.cfg_child_side = true;
 #endif
+  /* no descriptor at or above the soft limit is open (the kernel hands out none) */
+  gc.cfg_rlim_cur = nondet_ulong();
+  __CPROVER_assume(gc.cfg_rlim_cur >= 1 && gc.cfg_rlim_cur <= 1048577UL && (g.open & ~(gc.cfg_rlim_cur >= 32 ? 0xffffffffu : ((1u << gc.cfg_rlim_cur) - 1u))) == 0);
 
   /* argv: NULL (fork mode) or { a0, NULL } with a0 any 3-character string */
   static char a0[4];
@@ -83,7 +86,10 @@ void harness(void)
   __CPROVER_assume(options.handle.exit != options.handle.in && options.handle.exit != options.handle.out &&
                    options.handle.exit != options.handle.err);
 #ifdef VERIF_EXCLUDE_D11
-  /* known finding D11: child handles numbered 0..2 other than "stream i on descriptor i" */
+  /* known finding D11: the parent's descriptors 0..2 are not all open (so that
+     pipes the library creates land on 0..2), or a child handle is numbered 0..2
+     other than "stream i on descriptor i" */
+  __CPROVER_assume((g.open & 7u) == 7u);
   __CPROVER_assume((options.handle.in > 2 || options.handle.in == 0) &&
                    (options.handle.out > 2 || options.handle.out == 1) &&
                    (options.handle.err > 2 || options.handle.err == 2) && options.handle.exit > 2);
